@@ -27,7 +27,7 @@ Section Inv.
     ti_len : length t = N.to_nat cap;
     ti_canon : forall p, p < cap -> s_hash (tget t p) = 0 -> tget t p = empty_slot;
     ti_valid : forall p, p < cap -> s_hash (tget t p) <> 0 ->
-               s_hash (tget t p) = hashf (s_key (tget t p)) /\ s_key (tget t p) <> [];
+               s_hash (tget t p) = hashf (s_key (tget t p));
     ti_distinct : forall p q, p < cap -> q < cap ->
                s_hash (tget t p) <> 0 -> s_hash (tget t q) <> 0 ->
                s_key (tget t p) = s_key (tget t q) -> p = q;
@@ -46,13 +46,13 @@ Section Inv.
   Qed.
 
   Lemma TInv_tset t pos k v :
-    TInv t -> pos < cap -> k <> [] ->
+    TInv t -> pos < cap ->
     (forall p, p < cap -> p <> pos -> s_hash (tget t p) <> 0 -> s_key (tget t p) <> k) ->
     path t (hashf k) (dist (hashf k) pos cap) ->
     (s_hash (tget t pos) <> 0 -> dist (s_hash (tget t pos)) pos cap <= dist (hashf k) pos cap) ->
     TInv (tset t pos (mk (hashf k) k v)).
   Proof.
-    intros HI Hpos Hk Hfresh Hpath Hed.
+    intros HI Hpos Hfresh Hpath Hed.
     assert (Hlen : pos < N.of_nat (length t)) by (rewrite (ti_len _ HI); lia).
     assert (G : forall q, tget (tset t pos (mk (hashf k) k v)) q
                           = if N.eqb q pos then mk (hashf k) k v else tget t q)
@@ -109,7 +109,7 @@ Section Inv.
     index_loop fuel cap t ((hashf k mod cap + j) mod cap) j (hashf k) k = Some p0.
   Proof.
     intros HI Hp0 Hocc Hkey.
-    destruct (ti_valid _ HI p0 Hp0 Hocc) as [Hh _]. rewrite Hkey in Hh.
+    pose proof (ti_valid _ HI p0 Hp0 Hocc) as Hh. rewrite Hkey in Hh.
     pose proof (dist_lt cap Hcap (hashf k) p0) as Hdl.
     pose proof (cadd_dist cap Hcap (hashf k) p0 Hp0) as Hcd.
     induction n as [|n IH]; intros j fuel Hj Hf; (destruct fuel as [|f]; [lia|]); cbn [index_loop].
@@ -142,13 +142,13 @@ Section Inv.
     = Some (tset t p0 (mk (hashf k) k v), true).
   Proof.
     intros HI Hp0 Hocc Hkey.
-    destruct (ti_valid _ HI p0 Hp0 Hocc) as [Hh _]. rewrite Hkey in Hh.
+    pose proof (ti_valid _ HI p0 Hp0 Hocc) as Hh. rewrite Hkey in Hh.
     pose proof (dist_lt cap Hcap (hashf k) p0) as Hdl.
     pose proof (cadd_dist cap Hcap (hashf k) p0 Hp0) as Hcd.
     induction n as [|n IH]; intros j fuel Hj Hf; (destruct fuel as [|f]; [lia|]); cbn [insert_loop].
     - assert (j = dist (hashf k) p0 cap) by lia. subst j. rewrite Hcd.
       destruct (N.eqb_spec (s_hash (tget t p0)) 0) as [E0|E0]; [tauto|].
-      rewrite Hkey, bytes_eqb_refl. reflexivity.
+      cbn [negb andb orb]. rewrite Hkey, bytes_eqb_refl. reflexivity.
     - assert (Hjd : j < dist (hashf k) p0 cap) by lia.
       pose proof (ti_rh _ HI p0 Hp0 Hocc) as Hrh. rewrite Hh in Hrh.
       destruct (Hrh j Hjd) as [A B].
@@ -160,7 +160,7 @@ Section Inv.
         apply (cadd_inj cap Hcap (hashf k)); [lia|lia|fold q; congruence]. }
       assert (Em : bytes_eqb (s_key (tget t q)) k = false).
       { apply bytes_eqb_neq. intros Ek. apply Hqp. apply (ti_distinct _ HI); auto. congruence. }
-      rewrite Em. cbn [orb].
+      rewrite Em. cbn [negb andb orb].
       destruct (N.ltb_spec (dist (s_hash (tget t q)) q cap) j) as [Hl|Hl]; [lia|].
       unfold q. rewrite cadd_succ by (auto; lia).
       apply IH; lia.
@@ -169,7 +169,7 @@ Section Inv.
   (** ** [insert_loop], the key in hand is not in the table; [em] is an empty position *)
 
   Lemma insert_miss_gen em : forall fuel t pos d k v,
-    TInv t -> em < cap -> s_hash (tget t em) = 0 -> pos < cap -> k <> [] ->
+    TInv t -> em < cap -> s_hash (tget t em) = 0 -> pos < cap ->
     d = dist (hashf k) pos cap ->
     d + cgap cap pos em < cap ->
     path t (hashf k) d ->
@@ -179,25 +179,22 @@ Section Inv.
                Permutation (elems t') (mk (hashf k) k v :: elems t).
   Proof.
     induction fuel as [|f IH];
-      intros t pos d k v HI Hem Hemp Hpos Hk Hd Hgap Hpath Hfresh Hfuel; [lia|].
+      intros t pos d k v HI Hem Hemp Hpos Hd Hgap Hpath Hfresh Hfuel; [lia|].
     cbn [insert_loop].
     assert (Hlen : pos < N.of_nat (length t)) by (rewrite (ti_len _ HI); lia).
     pose proof (cadd_dist cap Hcap (hashf k) pos Hpos) as Hcd. rewrite <- Hd in Hcd.
     remember (tget t pos) as e eqn:Ee.
     destruct (N.eqb_spec (s_hash e) 0) as [He0|He0].
     - (* empty slot: place *)
-      cbn [orb].
-      assert (E1 : e = empty_slot) by (subst e; apply (ti_canon _ HI); auto).
-      assert (Hm : bytes_eqb (s_key e) k = false).
-      { rewrite E1. simpl. apply bytes_eqb_neq. congruence. }
-      rewrite Hm. eexists; split; [reflexivity|]. split.
+      cbn [negb andb orb].
+      eexists; split; [reflexivity|]. split.
       + apply TInv_tset; auto.
         * rewrite <- Hd; auto.
         * rewrite <- Ee. tauto.
       + apply elems_tset_empty; auto.
         * rewrite <- Ee; auto.
         * simpl. apply hash_nz.
-    - cbn [orb]. destruct (bytes_eqb (s_key e) k) eqn:Hm.
+    - cbn [negb andb orb]. destruct (bytes_eqb (s_key e) k) eqn:Hm.
       + exfalso. apply bytes_eqb_eq in Hm. apply (Hfresh pos); subst e; auto.
       + apply bytes_eqb_neq in Hm.
         assert (Hne : pos <> em) by (intros ->; subst e; tauto).
@@ -206,9 +203,8 @@ Section Inv.
         pose proof (succ_lt cap Hcap pos) as Hsl.
         destruct (N.ltb_spec (dist (s_hash e) pos cap) d) as [Hlt|Hge].
         * (* swap *)
-          assert (Hv : s_hash e = hashf (s_key e) /\ s_key e <> [])
+          assert (Hv1 : s_hash e = hashf (s_key e))
             by (subst e; apply (ti_valid _ HI); auto).
-          destruct Hv as [Hv1 Hv2].
           assert (HI1 : TInv (tset t pos (mk (hashf k) k v))).
           { apply TInv_tset; auto.
             - rewrite <- Hd; auto.
@@ -261,14 +257,14 @@ Section Inv.
   Definition bytes_dec : forall a b : bytes, {a = b} + {a <> b} := list_eq_dec N.eq_dec.
 
   Lemma insert_spec t k v :
-    TInv t -> k <> [] -> (length (elems t) < length t)%nat ->
+    TInv t -> (length (elems t) < length t)%nat ->
     exists t' ow, insert cap t (hashf k) k v = Some (t', ow) /\ TInv t' /\
       ((ow = false /\ (forall e, In e (elems t) -> s_key e <> k)
         /\ Permutation (elems t') (mk (hashf k) k v :: elems t))
        \/ (ow = true /\ exists e0 rest, s_key e0 = k /\ Permutation (elems t) (e0 :: rest)
                                     /\ Permutation (elems t') (mk (hashf k) k v :: rest))).
   Proof.
-    intros HI Hk Hocc. unfold insert.
+    intros HI Hocc. unfold insert.
     pose proof (ti_len _ HI) as Hlen.
     destruct (in_dec bytes_dec k (map s_key (elems t))) as [Hin|Hni].
     - apply in_map_iff in Hin as (e0 & Ek & Hin).
@@ -279,8 +275,8 @@ Section Inv.
       rewrite Ep0 in Hhit. specialize (Hhit Hh0 Ek (N.to_nat (dist (hashf k) p0 cap)) 0 (S (N.to_nat cap))).
       rewrite (N.add_0_r (hashf k mod cap)), N.mod_mod in Hhit by lia.
       exists (tset t p0 (mk (hashf k) k v)), true. split; [apply Hhit; lia|].
-      destruct (ti_valid _ HI p0 Hp0') as [Hv1 Hv2]; [rewrite Ep0; auto|].
-      rewrite Ep0, Ek in Hv1.
+      pose proof (ti_valid _ HI p0 Hp0') as Hv1. rewrite Ep0 in Hv1. specialize (Hv1 Hh0).
+      rewrite Ek in Hv1.
       split.
       + apply TInv_tset; auto.
         * intros p Hp Hne Ho Ekk. apply Hne. apply (ti_distinct _ HI); auto.
@@ -318,7 +314,7 @@ Section Inv.
   Qed.
 
   Lemma TInv_elems_valid t e : TInv t -> In e (elems t) ->
-    s_hash e = hashf (s_key e) /\ s_key e <> [].
+    s_hash e = hashf (s_key e).
   Proof.
     intros HI Hin. apply In_elems in Hin as (p & Hp & Ep & Hh).
     pose proof (ti_len _ HI) as Hlen. rewrite <- Ep in *. apply (ti_valid _ HI); auto. lia.
